@@ -1,4 +1,562 @@
+//! C09 — colour difference measures satisfy their defining formulas and metric laws.
+//!
+//! Sub-checks (all exhaustive over the stated products, E1 of DESIGN §3.1; f32 and f64):
+//!  ciede2000/<T>      all ordered pairs of the Lab lattice and of the Lch lattice through
+//!                     Ciede2000::difference (vs Sharma/Wu/Dalal with the backward-error envelope),
+//!                     ImprovedCiede2000 and the deprecated ColorDifference (vs their definition
+//!                     through `difference`)
+//!  closed-form/<T>    DeltaE, ImprovedDeltaE, EuclideanDistance, HyAb on Lab, Lch, Luv, Oklab,
+//!                     Cam16UcsJab, Cam16UcsJmh, Srgb, LinSrgb, Xyz, Yxy, SrgbLuma
+//!  polar-vs-rect/<T>  Lch vs Lab and Cam16UcsJmh vs Cam16UcsJab on colours that correspond
+//!                     under palette's own conversion (both directions)
+//!  wcag-luminance/<T> relative luminance of all 2^24 Srgb<u8> colours (value, range, monotone chains)
+//!  wcag-grey/<T>      all 256 × 256 grey-level pairs × 4 types × both traits
+//!  wcag-grid/<T>      all ordered pairs of the 9³ / 17³ sRGB grid × Srgb, LinSrgb × both traits
+//!  wcag-deprecated/<T> the deprecated RelativeContrast on 14 further colour types (9³ grid)
+mod checks;
+mod lattice;
+mod oracle;
+mod subject;
+
+use checks::*;
+use pv::{json, Collector, Ctx, Mode, Tier, Value};
+use subject::*;
+
+const CHUNKS: usize = 256;
+
+/// All unordered pairs i ≤ j of `n` items, rows dealt round-robin to CHUNKS chunks.
+fn par_pairs(n: usize, f: impl Fn(usize, usize, &mut Collector, &mut Local) + Sync) -> (Collector, Local) {
+    let ch = CHUNKS.min(n.max(1));
+    let res = pv::par::map_chunks(ch, |k| {
+        let mut c = Collector::new();
+        let mut l = Local::default();
+        let mut i = k;
+        while i < n {
+            for j in i..n {
+                f(i, j, &mut c, &mut l);
+            }
+            i += ch;
+        }
+        (c, l)
+    });
+    let mut total = Collector::new();
+    let mut lt = Local::default();
+    for (c, l) in res {
+        total.merge(c);
+        lt.merge(&l);
+    }
+    (total, lt)
+}
+
+fn ordered(n: usize) -> u64 {
+    (n as u64) * (n as u64)
+}
+
+fn lattice_of<T: Sc>(space: Space, tier: Tier) -> Vec<[T; 3]> {
+    match space {
+        Space::Lch | Space::Jmh => lattice::polar_lattice::<T>(space, tier),
+        Space::Lab | Space::Luv | Space::Oklab | Space::Jab => lattice::rect_lattice::<T>(space, tier),
+        Space::Luma => (0..=255u8).map(|v| [T::from_u8(v), T::from64(0.0), T::from64(0.0)]).collect(),
+        _ => lattice::cube_lattice::<T>(),
+    }
+}
+
+fn chroma64<T: Sc>(space: Space, x: [T; 3]) -> f64 {
+    let r = rect64(space, x);
+    r[1].hypot(r[2])
+}
+
+fn run_pairs<T: Sc>(ctx: &Ctx, total: &mut Collector) {
+    let ciede = [Meas::Ciede2000, Meas::ImprovedCiede2000, Meas::ColorDifference];
+    for group in ["ciede2000", "closed-form"] {
+        let sub = format!("{}/{}", group, T::NAME);
+        if !ctx.wants(&sub) {
+            continue;
+        }
+        let mut bound = vec![];
+        let mut agg = Local::default();
+        for space in SPACES {
+            let ms: Vec<Meas> = space.measures().iter().cloned().filter(|m| m.is_ciede() == (group == "ciede2000")).collect();
+            if ms.is_empty() {
+                continue;
+            }
+            let lat = lattice_of::<T>(space, ctx.tier);
+            let n = lat.len();
+            let (lat_r, ms_r) = (&lat, &ms);
+            let (c, l) = par_pairs(n, |i, j, c, l| {
+                let (x, y) = (lat_r[i], lat_r[j]);
+                let mut own = None;
+                for &m in ms_r.iter() {
+                    // Ciede2000 comes first in its group: the variants defined through it reuse its value
+                    let o = check_pair::<T>(group, space, m, x, y, own, c, l, ctx.seed);
+                    if m == Meas::Ciede2000 {
+                        own = o;
+                    }
+                }
+                let w = if i == j { 1 } else { 2 };
+                l.states += w;
+                // non-trivial: two different colours; for CIEDE2000 additionally both chromatic
+                // (a hue difference exists and the case analysis is exercised)
+                if i != j && (group != "ciede2000" || (chroma64::<T>(space, x) > 0.0 && chroma64::<T>(space, y) > 0.0)) {
+                    l.nontrivial += w;
+                }
+            });
+            total.merge(c);
+            bound.push(format!("{}: {} colours → {} ordered pairs × {} measures", space.name(), n, ordered(n), ms.len()));
+            if group == "ciede2000" {
+                let mut cases = json!({});
+                for hc in oracle::HUE_CASES {
+                    cases[hc.name()] = json!(l.case_pairs[hc.index()]);
+                }
+                total.note(&format!("ciede2000/{}<{}>", space.name(), T::NAME), json!({
+                    "unordered_pairs_by_hue_case": cases,
+                    "pairs_excluded_because_|Δh'|_within_threshold_of_180°": l.excluded, "threshold_deg": tols::<T>().thr180,
+                    "pairs_within_1e-3°_of_180°": l.excluded_1e3,
+                    "pairs_that_needed_the_±4ulp_envelope": l.needed_envelope,
+                    "pair_measure_evaluations_not_bit_symmetric": l.asym_bits,
+                    "max_err_over_tol_in_the_sum>=360_branches (not part of the sub-check's max_err_over_tol)": l.best_ge360,
+                    "mean_hue_variant_(sum+360)/2_when_sum>=360: max |ΔE_variant − ΔE_Sharma| (reference arithmetic, f64)": l.variant_dev,
+                    "mean_hue_variant_worst_pair": l.variant_case,
+                }));
+                for hc in oracle::HUE_CASES {
+                    if l.case_pairs[hc.index()] < 100 {
+                        total.warn(format!("ciede2000/{}<{}>: hue case {} occurs only {} times", space.name(), T::NAME, hc.name(), l.case_pairs[hc.index()]));
+                    }
+                }
+            }
+            agg.merge(&l);
+        }
+        total.add(&sub, agg.states, agg.trans, agg.traces, agg.nontrivial);
+        let what = if group == "ciede2000" {
+            "Lab lattice: L* ∈ {0,1,25,50,75,99,100} × (C* ∈ {1e-6,1,10,50,100,150} × h ∈ {every 10° (thorough: 2°)} ∪ {0+ε, 90±ε, 180±ε, 270±ε, 360−ε : ε ∈ {1e-2, 1e-5}}, and C* = 0) ∪ L* × {−128,−50,−1e-6,0,1e-6,50,127}²; Lch lattice: the same (L, C, h) as polar inputs plus h ∈ {−180,−10,360,370,720} and C = 0 with two hues; all ordered pairs (each unordered pair evaluated in both orders, and every colour with itself)"
+        } else {
+            "the Lab and Lch lattices of ciede2000, polar/cartesian lattices of the same shape for Luv, Oklab, Cam16UcsJab, Cam16UcsJmh, {0,1e-6,¼,½,¾,1}³ for Srgb, LinSrgb, Xyz, Yxy and all 256 levels for SrgbLuma; all ordered pairs"
+        };
+        total.exhaustive(&sub, true, &format!("{what}. {}", bound.join("; ")));
+        let _ = ciede;
+    }
+}
+
+fn run_polar_rect<T: Sc>(ctx: &Ctx, total: &mut Collector) {
+    let sub = format!("polar-vs-rect/{}", T::NAME);
+    if !ctx.wants(&sub) {
+        return;
+    }
+    let mut agg = Local::default();
+    let mut bound = vec![];
+    for space in [Space::Lch, Space::Jmh] {
+        for dir in ["from-polar", "from-rect"] {
+            let (pol, rec): (Vec<[T; 3]>, Vec<[T; 3]>) = if dir == "from-polar" {
+                let p = lattice_of::<T>(space, ctx.tier);
+                let r = p.iter().map(|x| T::to_rect(space, *x)).collect();
+                (p, r)
+            } else {
+                let r = lattice_of::<T>(space.rect(), ctx.tier);
+                let p = r.iter().map(|x| T::to_polar(space, *x)).collect();
+                (p, r)
+            };
+            let n = pol.len();
+            let (pr, rr) = (&pol, &rec);
+            let (c, l) = par_pairs(n, |i, j, c, l| {
+                // one argument order per unordered pair, alternating (symmetry itself is the
+                // business of the ciede2000 / closed-form sub-checks)
+                let (a, b) = if (i + j) % 2 == 0 { (i, j) } else { (j, i) };
+                check_polar_rect::<T>(space, None, dir, pr[a], pr[b], rr[a], rr[b], c, l, ctx.seed);
+                l.states += 1;
+                if i != j {
+                    l.nontrivial += 1;
+                }
+            });
+            total.merge(c);
+            bound.push(format!("{} {}: {} colours → {} unordered pairs × {} measures", space.name(), dir, n, (n as u64) * (n as u64 + 1) / 2, polar_measures(space).len()));
+            if space == Space::Lch {
+                total.note(&format!("polar-vs-rect/Lch<{}>/{}", T::NAME, dir), json!({"ciede2000_evaluations_excluded_near_180°": l.excluded}));
+            }
+            agg.merge(&l);
+        }
+    }
+    total.add(&sub, agg.states, agg.trans, agg.traces, agg.nontrivial);
+    total.exhaustive(&sub, true, &format!("Ciede2000, ImprovedCiede2000, DeltaE, ImprovedDeltaE of Lch and DeltaE, ImprovedDeltaE of Cam16UcsJmh against the same measure of Lab / Cam16UcsJab on the colours that correspond under palette's own FromColorUnclamped, for all unordered pairs (argument order alternating, every colour also with itself) of the polar lattice (converted to rectangular) and of the rectangular lattice (converted to polar). {}", bound.join("; ")));
+}
+
+// ---- WCAG ---------------------------------------------------------------------------------
+
+fn grid<T: Sc>(n: usize) -> Vec<[T; 3]> {
+    let lv = lattice::grid_levels(n);
+    let mut v = vec![];
+    for &r in &lv {
+        for &g in &lv {
+            for &b in &lv {
+                v.push([T::from_u8(r), T::from_u8(g), T::from_u8(b)]);
+            }
+        }
+    }
+    v
+}
+
+fn run_wcag_pairs<T: Sc>(ctx: &Ctx, total: &mut Collector, yrow: &[f64; 3]) {
+    // grey levels
+    let sub = format!("wcag-grey/{}", T::NAME);
+    if ctx.wants(&sub) {
+        let z = T::from64(0.0);
+        let lv: Vec<T> = (0..=255u8).map(T::from_u8).collect();
+        let (lv_r, sub_r) = (&lv, &sub);
+        let (c, l) = par_pairs(256, |i, j, c, l| {
+            let (gx, gy) = ([lv_r[i]; 3], [lv_r[j]; 3]);
+            let (lx, ly) = ([lv_r[i], z, z], [lv_r[j], z, z]);
+            for ty in WTYPES {
+                let (x, y) = if ty.grey() { (lx, ly) } else { (gx, gy) };
+                check_wcag::<T>(sub_r, ty, x, y, yrow, c, l, ctx.seed);
+                check_wcag_old::<T>(sub_r, OType::from_name(ty.name()).unwrap(), x, y, yrow, c, l, ctx.seed);
+            }
+            let w = if i == j { 1 } else { 2 };
+            l.states += w * 4;
+            if i != j {
+                l.nontrivial += w * 4;
+            }
+        });
+        total.merge(c);
+        total.add(&sub, l.states, l.trans, l.traces, l.nontrivial);
+        total.exhaustive(&sub, true, "all 256 × 256 ordered pairs of 8-bit grey levels v/255 as SrgbLuma, Srgb(v,v,v), LinLuma, LinSrgb(v,v,v), through Wcag21RelativeContrast (luminance, ratio, 5 predicates, both orders) and the deprecated RelativeContrast");
+    }
+    // colour grid
+    let sub = format!("wcag-grid/{}", T::NAME);
+    if ctx.wants(&sub) {
+        let n = ctx.tier.pick(9, 17);
+        let g = grid::<T>(n);
+        let (g_r, sub_r) = (&g, &sub);
+        let (c, l) = par_pairs(g.len(), |i, j, c, l| {
+            for ty in [WType::Srgb, WType::LinSrgb] {
+                check_wcag::<T>(sub_r, ty, g_r[i], g_r[j], yrow, c, l, ctx.seed);
+                check_wcag_old::<T>(sub_r, OType::from_name(ty.name()).unwrap(), g_r[i], g_r[j], yrow, c, l, ctx.seed);
+            }
+            let w = if i == j { 1 } else { 2 };
+            l.states += w * 2;
+            if i != j {
+                l.nontrivial += w * 2;
+            }
+        });
+        total.merge(c);
+        total.add(&sub, l.states, l.trans, l.traces, l.nontrivial);
+        total.exhaustive(&sub, true, &format!("all ordered pairs of the {n}³ = {} grid of Srgb<u8> colours (levels {:?}) converted with into_format, read as Srgb and as LinSrgb, through Wcag21RelativeContrast and the deprecated RelativeContrast", g.len(), lattice::grid_levels(n)));
+    }
+    // deprecated trait on the other colour types
+    let sub = format!("wcag-deprecated/{}", T::NAME);
+    if ctx.wants(&sub) {
+        let gn = ctx.tier.pick(6, 9);
+        let g = grid::<T>(gn);
+        let types: Vec<OType> = OTYPES.into_iter().filter(|t| t.as_wtype().is_none()).collect();
+        let (g_r, sub_r, ty_r) = (&g, &sub, &types);
+        let (c, l) = par_pairs(g.len(), |i, j, c, l| {
+            for &ty in ty_r.iter() {
+                check_wcag_old::<T>(sub_r, ty, g_r[i], g_r[j], yrow, c, l, ctx.seed);
+            }
+            let w = if i == j { 1 } else { 2 };
+            l.states += w * ty_r.len() as u64;
+            if i != j {
+                l.nontrivial += w * ty_r.len() as u64;
+            }
+        });
+        total.merge(c);
+        total.add(&sub, l.states, l.trans, l.traces, l.nontrivial);
+        total.exhaustive(&sub, true, &format!("all ordered pairs of the {gn}³ sRGB grid converted with FromColor to {} and compared with the deprecated RelativeContrast (symmetry, 1 ≤ r ≤ 21(1+2e-3), predicates ⇔ thresholds on the returned ratio)", types.iter().map(|t| t.name()).collect::<Vec<_>>().join(", ")));
+    }
+}
+
+/// One colour of the 2^24: range and value of the relative luminance. Returns the value.
+fn check_lum<T: Sc>(rgb: [u8; 3], dec: &[(f64, f64); 256], yrow: &[f64; 3], c: &mut Collector, best: &mut f64, sub: &str) -> f64 {
+    let t = tols::<T>();
+    let case = |w: &str, v: Value| json!({"sub": "wcag-luminance", "kind": "value", "float": T::NAME, "rgb": rgb, "what": w, "observed": v});
+    let v = match pv::catch(|| T::lum_u8(rgb[0], rgb[1], rgb[2])) {
+        Ok(v) => v.to64(),
+        Err(m) => {
+            c.violation(&format!("C09/wcag-luminance/Srgb<{}>/panic", T::NAME), 1.0, || case("panic", json!(m)));
+            return f64::NAN;
+        }
+    };
+    if !(0.0..=1.0).contains(&v) {
+        c.violation(&format!("C09/wcag-luminance/Srgb<{}>/range", T::NAME), if v.is_nan() { f64::INFINITY } else { (-v).max(v - 1.0) }, || case("relative luminance outside [0, 1]", fnum(v)));
+        return v;
+    }
+    let lo = [dec[rgb[0] as usize].0, dec[rgb[1] as usize].0, dec[rgb[2] as usize].0];
+    let hi = [dec[rgb[0] as usize].1, dec[rgb[1] as usize].1, dec[rgb[2] as usize].1];
+    let (a, b) = oracle::luminance_hull(lo, hi, yrow);
+    let excess = (a - v).max(v - b).max(0.0);
+    if excess > t.lum {
+        c.violation(&format!("C09/wcag-luminance/Srgb<{}>/value", T::NAME), excess, || case(&format!("relative luminance outside [{a}, {b}] ± {}", t.lum), fnum(v)));
+    } else if excess / t.lum > *best {
+        *best = excess / t.lum;
+        c.ratio(sub, *best, || case("largest error/tolerance so far", fnum(v)));
+    }
+    v
+}
+
+fn check_lum_monotone<T: Sc>(lower: [u8; 3], upper: [u8; 3], vl: f64, vu: f64, channel: usize, c: &mut Collector) -> bool {
+    let t = tols::<T>();
+    if vu < vl - t.lum {
+        c.violation(&format!("C09/wcag-luminance/Srgb<{}>/monotone/{}", T::NAME, ["red", "green", "blue"][channel]), vl - vu, || json!({"sub": "wcag-luminance", "kind": "monotone", "float": T::NAME, "rgb": lower, "channel": channel, "upper": upper, "observed": {"L(lower)": fnum(vl), "L(upper)": fnum(vu)}, "expected": "L(upper) >= L(lower)"}));
+    }
+    vu < vl
+}
+
+fn decode_table<T: Sc>() -> [(f64, f64); 256] {
+    let mut d = [(0.0, 0.0); 256];
+    for v in 0..256usize {
+        let e = T::from_u8(v as u8).to64();
+        let (a, b) = (oracle::srgb_decode(e, oracle::KNEE_IEC), oracle::srgb_decode(e, oracle::KNEE_WCAG));
+        d[v] = (a.min(b), a.max(b));
+    }
+    d
+}
+
+fn run_luminance<T: Sc>(ctx: &Ctx, total: &mut Collector, yrow: &[f64; 3]) {
+    let sub = format!("wcag-luminance/{}", T::NAME);
+    if !ctx.wants(&sub) {
+        return;
+    }
+    let dec = decode_table::<T>();
+    let (dec_r, sub_r) = (&dec, &sub);
+    // 16 slabs of 16 red levels; each slab also evaluates the red level below it so that the
+    // red chains are walked across slab borders
+    let res = pv::par::map_chunks(16, |k| {
+        let mut c = Collector::new();
+        let mut best = 0.0f64;
+        let (mut states, mut trans, mut traces, mut nontriv, mut exact_dec) = (0u64, 0u64, 0u64, 0u64, 0u64);
+        let mut prev: Vec<f64> = vec![];
+        let r0 = k * 16;
+        let start = if r0 == 0 { 0 } else { r0 - 1 };
+        for r in start..r0 + 16 {
+            let own = r >= r0;
+            let mut cur = vec![0.0f64; 65536];
+            for g in 0..256usize {
+                for b in 0..256usize {
+                    let rgb = [r as u8, g as u8, b as u8];
+                    let v = if own {
+                        trans += 1;
+                        traces += 2;
+                        check_lum::<T>(rgb, dec_r, yrow, &mut c, &mut best, sub_r)
+                    } else {
+                        T::lum_u8(rgb[0], rgb[1], rgb[2]).to64()
+                    };
+                    cur[g << 8 | b] = v;
+                    if !own {
+                        continue;
+                    }
+                    states += 1;
+                    if rgb != [0, 0, 0] && rgb != [255, 255, 255] {
+                        nontriv += 1;
+                    }
+                    if b > 0 {
+                        traces += 1;
+                        exact_dec += check_lum_monotone::<T>([r as u8, g as u8, b as u8 - 1], rgb, cur[g << 8 | (b - 1)], v, 2, &mut c) as u64;
+                    }
+                    if g > 0 {
+                        traces += 1;
+                        exact_dec += check_lum_monotone::<T>([r as u8, g as u8 - 1, b as u8], rgb, cur[(g - 1) << 8 | b], v, 1, &mut c) as u64;
+                    }
+                    if r > 0 {
+                        traces += 1;
+                        exact_dec += check_lum_monotone::<T>([r as u8 - 1, g as u8, b as u8], rgb, prev[g << 8 | b], v, 0, &mut c) as u64;
+                    }
+                    if (r * 65536 + g * 256 + b) % 4099 == 0 {
+                        c.outcome(v.to_bits());
+                    }
+                    if (r * 65536 + g * 256 + b) % 65521 == 0 {
+                        c.sample(pv::splitmix(v.to_bits() ^ ctx.seed), || json!({"sub": sub_r, "rgb": rgb, "relative_luminance": v}));
+                    }
+                }
+            }
+            prev = cur;
+        }
+        c.add(sub_r, states, trans, traces, nontriv);
+        (c, exact_dec)
+    });
+    let mut dec_total = 0u64;
+    for (c, d) in res {
+        total.merge(c);
+        dec_total += d;
+    }
+    total.note(&format!("wcag-luminance/{}", T::NAME), json!({"adjacent pairs (one channel + 1) whose luminance strictly decreases (any amount)": dec_total}));
+    total.exhaustive(&sub, true, "relative_luminance of Srgb::<u8>::new(r, g, b).into_format::<T>() for all 2^24 (r, g, b): in [0, 1], inside the reference interval, and non-decreasing along every one of the 3 × 65536 single-channel chains of 256 colours");
+}
+
+/// DESIGN §3.2: numeric literals in comparison position in the anchored sources.
+fn scan_literals(c: &mut Collector) {
+    let repo = std::env::var("VERIF_REPO").unwrap_or_else(|_| "/repo".into());
+    let known = ["180.0", "360.0", "4.5", "3.0", "7.0"];
+    let mut found = vec![];
+    for f in ["palette/src/color_difference.rs", "palette/src/relative_contrast.rs"] {
+        let Ok(txt) = std::fs::read_to_string(format!("{repo}/{f}")) else {
+            c.note("literal-scan", json!(format!("{repo}/{f} not readable: scan skipped")));
+            return;
+        };
+        for line in txt.lines() {
+            let code = line.split("//").next().unwrap_or("");
+            if ![".lt(", ".lt_eq(", ".gt(", ".gt_eq(", ".eq("].iter().any(|p| code.contains(p)) {
+                continue;
+            }
+            let mut rest = code;
+            while let Some(p) = rest.find("from_f64(") {
+                let tail = &rest[p + 9..];
+                let lit: String = tail.chars().take_while(|ch| *ch != ')').collect();
+                if !known.contains(&lit.trim()) {
+                    c.warn(format!("{f}: literal {lit} in a comparison is not in C09's threshold list {known:?}"));
+                }
+                found.push(format!("{f}:{}", lit.trim()));
+                rest = &tail[lit.len()..];
+            }
+        }
+    }
+    found.sort();
+    found.dedup();
+    c.note("literal-scan", json!({"comparison literals": found, "known": known, "covered by": "hue lattice at 0/180/360 ± {1e-2, 1e-5}° and exact axes; WCAG predicates are compared with their threshold on every returned ratio (grey pairs put ratios on both sides of 3, 4.5 and 7)"}));
+}
+
+// ---- replay -----------------------------------------------------------------------------------
+
+fn parse_bits(v: &Value) -> Vec<u64> {
+    v.as_array().map(|a| a.iter().map(|x| u64::from_str_radix(x.as_str().unwrap_or("0").trim_start_matches("0x"), 16).unwrap_or(0)).collect()).unwrap_or_default()
+}
+
+fn replay_t<T: Sc>(case: &Value, c: &mut Collector) {
+    let bad = |why: &str| -> ! {
+        eprintln!("replay: malformed case ({why})");
+        std::process::exit(3)
+    };
+    let yrow = oracle::y_row_from_primaries();
+    let mut l = Local::default();
+    let bits = parse_bits(&case["input"]);
+    let col = |o: usize| -> [T; 3] { [T::from_bits64(bits[o]), T::from_bits64(bits[o + 1]), T::from_bits64(bits[o + 2])] };
+    let sub = case["sub"].as_str().unwrap_or("");
+    match sub {
+        "pair" => {
+            if bits.len() != 6 {
+                bad("6 input words expected")
+            }
+            let space = Space::from_name(case["space"].as_str().unwrap_or("")).unwrap_or_else(|| bad("space"));
+            let m = Meas::from_name(case["measure"].as_str().unwrap_or("")).unwrap_or_else(|| bad("measure"));
+            let group = if m.is_ciede() { "ciede2000" } else { "closed-form" };
+            let (x, y) = (col(0), col(3));
+            check_pair::<T>(group, space, m, x, y, None, c, &mut l, 0);
+            let o = pv::catch(|| (T::dist(space, m, x, y), T::dist(space, m, y, x)));
+            println!("{}<{}> {}: x = {:?}, y = {:?}", space.name(), T::NAME, m.name(), to64(x), to64(y));
+            println!("  observed d(x,y), d(y,x) = {:?}", o.map(|(a, b)| (a.map(|v| v.to64()), b.map(|v| v.to64()))));
+            if m.is_ciede() {
+                let r = oracle::ciede2000(rect64(space, x), rect64(space, y));
+                println!("  Sharma reference ΔE00 = {} (h1' = {}, h2' = {}, C1' = {}, C2' = {}, case {}, | |Δh'| − 180 | = {})", r.de, r.h1, r.h2, r.c1p, r.c2p, r.case.name(), r.dist180);
+            } else {
+                let e = expect_closed::<T>(space, m, x, y);
+                println!("  closed form = {} ± {}", e.lo, e.tol);
+            }
+        }
+        "polar-vs-rect" => {
+            if bits.len() != 6 {
+                bad("6 input words expected")
+            }
+            let space = Space::from_name(case["space"].as_str().unwrap_or("")).unwrap_or_else(|| bad("space"));
+            let m = Meas::from_name(case["measure"].as_str().unwrap_or("")).unwrap_or_else(|| bad("measure"));
+            let (a, b) = (col(0), col(3));
+            let (dir, p, q, pr, qr) = if case["direction"].as_str() == Some("from-rect") { ("from-rect", T::to_polar(space, a), T::to_polar(space, b), a, b) } else { ("from-polar", a, b, T::to_rect(space, a), T::to_rect(space, b)) };
+            check_polar_rect::<T>(space, Some(m), dir, p, q, pr, qr, c, &mut l, 0);
+            println!("{}<{}> {} ({dir}): polar {:?} {:?}; rect {:?} {:?}", space.name(), T::NAME, m.name(), to64(p), to64(q), to64(pr), to64(qr));
+            println!("  observed polar = {:?}, rect = {:?}", pv::catch(|| T::dist(space, m, p, q).map(|v| v.to64())), pv::catch(|| T::dist(space.rect(), m, pr, qr).map(|v| v.to64())));
+        }
+        "wcag" => {
+            if bits.len() != 6 {
+                bad("6 input words expected")
+            }
+            let (x, y) = (col(0), col(3));
+            let ty = case["type"].as_str().unwrap_or("");
+            if case["trait"].as_str() == Some("RelativeContrast") {
+                let ty = OType::from_name(ty).unwrap_or_else(|| bad("type"));
+                check_wcag_old::<T>("replay", ty, x, y, &yrow, c, &mut l, 0);
+                println!("RelativeContrast {}<{}>: x = {:?}, y = {:?} -> {:?}", ty.name(), T::NAME, to64(x), to64(y), pv::catch(|| T::wcag_old(ty, x, y)).map(|o| (o.r[0].to64(), o.r[1].to64(), o.p)));
+            } else {
+                let ty = WType::from_name(ty).unwrap_or_else(|| bad("type"));
+                check_wcag::<T>("replay", ty, x, y, &yrow, c, &mut l, 0);
+                println!("Wcag21RelativeContrast {}<{}>: x = {:?}, y = {:?} -> {:?}", ty.name(), T::NAME, to64(x), to64(y), pv::catch(|| T::wcag(ty, x, y)).map(|o| (o.lum.map(|l| [l[0].to64(), l[1].to64()]), o.r[0].to64(), o.r[1].to64(), o.p)));
+                println!("  reference luminance intervals: {:?} {:?}", lum_ref(ty, to64(x), &yrow), lum_ref(ty, to64(y), &yrow));
+            }
+        }
+        "wcag-luminance" => {
+            let rgb: Vec<u8> = case["rgb"].as_array().map(|a| a.iter().map(|v| v.as_u64().unwrap_or(0) as u8).collect()).unwrap_or_default();
+            if rgb.len() != 3 {
+                bad("rgb")
+            }
+            let dec = decode_table::<T>();
+            let rgb = [rgb[0], rgb[1], rgb[2]];
+            let mut best = 0.0;
+            let v = check_lum::<T>(rgb, &dec, &yrow, c, &mut best, "replay");
+            println!("relative_luminance(Srgb<u8>{rgb:?} as {}) = {v}", T::NAME);
+            if case["kind"].as_str() == Some("monotone") {
+                let ch = case["channel"].as_u64().unwrap_or(0).min(2) as usize;
+                let mut up = rgb;
+                if up[ch] == 255 {
+                    bad("channel already at 255")
+                }
+                up[ch] += 1;
+                let vu = check_lum::<T>(up, &dec, &yrow, c, &mut best, "replay");
+                check_lum_monotone::<T>(rgb, up, v, vu, ch, c);
+                println!("relative_luminance(Srgb<u8>{up:?} as {}) = {vu}", T::NAME);
+            }
+        }
+        _ => bad("sub"),
+    }
+}
+
 fn main() {
-    eprintln!("C09: check not built yet");
-    std::process::exit(3);
+    pv::main_guard(real_main)
+}
+
+fn real_main() -> i32 {
+    let (ctx, mode) = Ctx::from_args("C09");
+    // machinery: the references must reproduce published / hand-computed values
+    if let Err(e) = oracle::selftest() {
+        eprintln!("MACHINERY-FAILURE: reference self-test: {e}");
+        return 3;
+    }
+    let repo = std::env::var("VERIF_REPO").unwrap_or_else(|_| "/repo".into());
+    let csv_path = format!("{repo}/integration_tests/tests/convert/data_ciede_2000.csv");
+    let validated = match std::fs::read_to_string(&csv_path).map_err(|e| format!("{csv_path}: {e}")).and_then(|t| oracle::validate_ciede2000(&t)) {
+        Ok(v) => v,
+        Err(e) => {
+            eprintln!("MACHINERY-FAILURE: CIEDE2000 reference does not reproduce the published pairs: {e}");
+            return 3;
+        }
+    };
+    if let Mode::Replay(rep) = mode {
+        let mut c = Collector::new();
+        let case = &rep["case"];
+        if case["float"].as_str() == Some("f64") {
+            replay_t::<f64>(case, &mut c);
+        } else {
+            replay_t::<f32>(case, &mut c);
+        }
+        return ctx.finish_replay(c);
+    }
+    let yrow = oracle::y_row_from_primaries();
+    let mut total = Collector::new();
+    run_pairs::<f32>(&ctx, &mut total);
+    run_pairs::<f64>(&ctx, &mut total);
+    run_polar_rect::<f32>(&ctx, &mut total);
+    run_polar_rect::<f64>(&ctx, &mut total);
+    run_luminance::<f32>(&ctx, &mut total, &yrow);
+    run_luminance::<f64>(&ctx, &mut total, &yrow);
+    run_wcag_pairs::<f32>(&ctx, &mut total, &yrow);
+    run_wcag_pairs::<f64>(&ctx, &mut total, &yrow);
+    scan_literals(&mut total);
+    total.note("reference-validation", json!({"ciede2000": format!("all {} pairs of {csv_path} reproduced in both orders, worst |reference − published| = {:.2e} (published to 4 decimals)", validated.0, validated.1), "luminance_row_from_primaries": yrow}));
+    total.note("tolerances", json!(TOL_NOTE));
+    ctx.finish(
+        total,
+        "model_checking",
+        "a state = one ordered pair of colours (bit patterns) of one colour type and float; transitions = calls of the difference/contrast methods on it; traces = observed values compared with the f64 reference (value), with the swapped call (symmetry) and with the sign/zero laws; non-trivial = the two colours differ (CIEDE2000: and both have non-zero chroma, so the hue case analysis is exercised; luminance sweep: neither black nor white)",
+        &[
+            "CIEDE2000 is compared with Sharma/Wu/Dalal (2005) evaluated in f64 on the T-rounded inputs; where that differs by more than tol the hull of the reference over the ±4-ulp box around the inputs is accepted (DESIGN §3.4)",
+            "pairs with | |Δh'| − 180° | below 2e-3° (f32) / 1e-9° (f64) are excluded from the value comparison, as the statement allows (the formula jumps there); their number is recorded",
+            "ImprovedCiede2000 and the deprecated ColorDifference are compared with their definition through Ciede2000::difference (the value that call returned), ImprovedDeltaE with a·ΔE^b of Huang et al. (1.26, 0.55 for CIELAB; 1.41, 0.63 for CAM16-UCS; 1.43, 0.70 for CIEDE2000) as the doc comments state",
+            "WCAG relative luminance: palette documents it as clamped LinLuma (Y of linear sRGB, IEC 61966-2-1 decoding); the reference accepts the interval spanned by the 4-digit coefficients printed in WCAG 2.1 (0.2126, 0.7152, 0.0722) and the row derived from the sRGB primaries, and by the knees 0.03928 / 0.04045 (no 8-bit level lies between them)",
+            "the deprecated RelativeContrast on colour types other than Rgb/Luma is judged on symmetry, range and predicate agreement only (its luminance goes through conversions that are the subject of C01/C02)",
+        ],
+    )
 }
